@@ -20,6 +20,33 @@ def cond_key(p, drop=()):
     return frozenset((nf.vkey(c), pol) for c, pol, _ in p.conds if fmt(c) not in drop)
 
 
+def bool_coercion_rule(chk, repo, clause='C11-b'):
+    """the mask is only used through its boolean support in zernike / zernike_coordinates (C11-b; reused by C12)"""
+    for key in ('zernike.zernike', 'zernike.zernike_coordinates'):
+        ff, pp, _ = analyse(repo, key)
+        bare = False
+        where = ''
+        for p in pp:
+            vals = [p.ret] if p.status == 'return' else []
+            for e in p.events:
+                if e.kind == 'call' and not str(e.data.get('callee', '')).startswith('ext:'):
+                    vals += list((e.data.get('bound') or {}).values())
+            for c, _, _ in p.conds:
+                vals.append(c)
+            for v in vals:
+                if v is None:
+                    continue
+                for a in nf.value_atoms(v):
+                    # the bare parameter may only occur as the operand of the bool cast
+                    pass
+                if _bare_use(v):
+                    bare = True
+                    where = fmt(v)[:120]
+        chk.ob(clause, 'D-dominance', key, 'mask only used through its boolean support', not bare,
+               f'un-coerced use of `mask`: {where}' if bare else 'np.asarray(mask, dtype=bool) precedes every use', ff.loc())
+
+
+
 def run(chk, repo, tier):
     from .common import no_hidden_state
     no_hidden_state(chk, repo, 'C11')
@@ -28,6 +55,8 @@ def run(chk, repo, tier):
     operands_untouched(chk, repo, 'C11-o', ['zernike.zernike', 'zernike.zernike_compose', 'zernike.zernike_basis', 'zernike.zernike_fit', 'zernike.zernike_remove', 'zernike.zernike_coordinates', 'zernike.R'], allow=[])
     chk.clause('C11-a', 'zero outside the mask: the mask is a factor of every returned mode', 1)
     chk.clause('C11-b', 'the mask is coerced to bool before any other use', 2)
+    from .c12 import binding_rule
+    binding_rule(chk, repo, 'C11-c')
     chk.clause('C11-c', 'normalised = un-normalised x sqrt(n+1) (m = 0) or sqrt(2)*sqrt(n+1) (m != 0); cosine for m > 0, sine for m < 0', 3)
     chk.clause('C11-d', 'default polar origin = mask centroid for either parity (shift = centroid - floor(n/2))', 2)
     from .c20 import centroid_rule
@@ -55,29 +84,7 @@ def run(chk, repo, tier):
         chk.ob('C11-a', 'D-factor', f.key, f'mask factor [{conds_str(p)[-110:]}]', hm,
                f'returns {fmt(p.ret)[:200]}', f.loc(p.node))
     # ---------------------------------------------------------------- C11-b
-    for key in ('zernike.zernike', 'zernike.zernike_coordinates'):
-        ff, pp, _ = analyse(repo, key)
-        bare = False
-        where = ''
-        for p in pp:
-            vals = [p.ret] if p.status == 'return' else []
-            for e in p.events:
-                if e.kind == 'call' and not str(e.data.get('callee', '')).startswith('ext:'):
-                    vals += list((e.data.get('bound') or {}).values())
-            for c, _, _ in p.conds:
-                vals.append(c)
-            for v in vals:
-                if v is None:
-                    continue
-                for a in nf.value_atoms(v):
-                    # the bare parameter may only occur as the operand of the bool cast
-                    pass
-                if _bare_use(v):
-                    bare = True
-                    where = fmt(v)[:120]
-        chk.ob('C11-b', 'D-dominance', key, 'mask only used through its boolean support', not bare,
-               f'un-coerced use of `mask`: {where}' if bare else 'np.asarray(mask, dtype=bool) precedes every use', ff.loc())
-
+    bool_coercion_rule(chk, repo)
     # ---------------------------------------------------------------- C11-c
     nm = 'normalize'
     idx = None
